@@ -35,8 +35,8 @@ fn main() {}
 W = []
 
 
-def w(id_, rule, entry, codes, head, fail, twin, tail="}"):
-    W.append(dict(id=id_, rule=rule, entry=entry, codes=codes if isinstance(codes, (list, tuple)) else [codes], head=head, fail=fail, twin=twin, tail=tail))
+def w(id_, rule, entry, codes, head, fail, twin, tail="}", skip_features=()):
+    W.append(dict(id=id_, rule=rule, entry=entry, codes=codes if isinstance(codes, (list, tuple)) else [codes], head=head, fail=fail, twin=twin, tail=tail, skip_features=skip_features))
 
 
 H = "message needs a handler"
@@ -71,7 +71,7 @@ w("u10", U, "Context::delayed_send", "E0271", "fn w(ctx: &mut Context<A1>) {", "
 w("u11", U, "Context::register_child", "E0271", "fn w(ctx: &mut Context<A1>, child: Addr<A1>) {", "ctx.register_child::<Ask>(child);", "ctx.register_child::<Ping>(child);")
 w("u12", U, "Context::send_to_children", "E0271", "fn w(ctx: &mut Context<A1>) {", "ctx.send_to_children(Ask);", "ctx.send_to_children(Ping);")
 w("u13", U, "Context::subscribe", "E0271", "async fn w(ctx: &mut Context<A1>) {", "let _ = ctx.subscribe::<Ask>().await;", "let _ = ctx.subscribe::<Ping>().await;")
-w("u14", U, "Context::publish", "E0271", "async fn w(ctx: &Context<A1>) {", "let _ = ctx.publish(Ask).await;", "let _ = ctx.publish(Ping).await;")
+w("u14", U, "Context::publish", "E0271", "async fn w(ctx: &Context<A1>) {", "let _ = ctx.publish(Ask).await;", "let _ = ctx.publish(Ping).await;", skip_features=("smol_runtime",))  # cfg(any(tokio_runtime, async_runtime))
 w("u15", U, "Broker::publish", "E0271", "async fn w() {", "let _ = Broker::publish(Ask).await;", "let _ = Broker::publish(Ping).await;")
 
 R = "restart only for restartable actors"
